@@ -1,0 +1,254 @@
+//! Verification hooks (cargo feature `verif`, off by default).
+//!
+//! Runs a program entirely in memory (stdin/stdout/LPT1 are byte buffers, the
+//! screen is headless) under an instruction budget, optionally reporting a
+//! snapshot of the VM's bookkeeping before every instruction.
+
+use std::cell::{Cell, RefCell};
+use std::io::{Cursor, Write};
+use std::rc::Rc;
+
+use rusty_linter::core::{LintErrorPos, lint};
+use rusty_parser::{ParseErrorPos, parse_main_str};
+use rusty_variant::Variant;
+
+use super::interpreter_trait::InterpreterTrait;
+use super::main::Interpreter;
+use super::read_input::ReadInputSource;
+use super::screen::Screen;
+use super::stdlib::Stdlib;
+use super::write_printer::WritePrinter;
+use crate::instruction_generator::{
+    InstructionGeneratorResult, generate_instructions, unwrap_linter_context,
+};
+use crate::{RuntimeError, RuntimeErrorPos};
+
+/// The VM's bookkeeping, as seen right before the instruction at `pc` executes.
+#[derive(Clone, Debug, Default)]
+pub struct Snapshot {
+    pub pc: usize,
+    pub row: u32,
+    pub col: u32,
+    pub value_stack: usize,
+    pub register_stack: usize,
+    pub var_path_stack: usize,
+    pub by_ref_stack: usize,
+    pub return_address_stack: Vec<usize>,
+    pub go_sub_address_stack: Vec<usize>,
+    pub stacktrace: Vec<(u32, u32)>,
+    /// (memory block index, is collecting arguments, number of collected arguments)
+    pub ctx_states: Vec<(usize, bool, usize)>,
+    /// (ref count, is static, number of variables)
+    pub ctx_blocks: Vec<(usize, bool, usize)>,
+    /// (scope name, memory block index), sorted by scope name
+    pub ctx_static: Vec<(String, usize)>,
+    pub last_error_code: Option<i32>,
+    pub last_error_address: Option<usize>,
+    /// 0 = none, 1 = resume next, 2 = address
+    pub handler_kind: u8,
+    pub handler_address: usize,
+    /// variables of every memory block, in index order: (name, value)
+    pub vars: Option<Vec<Vec<(String, Variant)>>>,
+}
+
+pub type Observer = Box<dyn FnMut(&Snapshot)>;
+
+thread_local! {
+    static BUDGET: Cell<u64> = const { Cell::new(u64::MAX) };
+    static STEPS: Cell<u64> = const { Cell::new(0) };
+    static EXHAUSTED: Cell<bool> = const { Cell::new(false) };
+    static WANT_VARS: Cell<bool> = const { Cell::new(false) };
+    static OBSERVER: RefCell<Option<Observer>> = const { RefCell::new(None) };
+}
+
+pub const BUDGET_MESSAGE: &str = "verif: instruction budget exhausted";
+
+pub(super) fn wants_snapshot() -> bool {
+    OBSERVER.with(|o| o.borrow().is_some())
+}
+
+pub(super) fn wants_vars() -> bool {
+    WANT_VARS.with(|w| w.get())
+}
+
+/// Called by the fetch-execute loop before every instruction.
+/// Returns `true` if the instruction budget is exhausted.
+pub(super) fn tick(snapshot: Option<Snapshot>) -> bool {
+    let steps = STEPS.with(|s| {
+        let n = s.get() + 1;
+        s.set(n);
+        n
+    });
+    if steps > BUDGET.with(|b| b.get()) {
+        EXHAUSTED.with(|e| e.set(true));
+        return true;
+    }
+    if let Some(snapshot) = snapshot {
+        OBSERVER.with(|o| {
+            if let Some(f) = o.borrow_mut().as_mut() {
+                f(&snapshot);
+            }
+        });
+    }
+    false
+}
+
+#[derive(Clone, Default)]
+struct SharedBuf(Rc<RefCell<Vec<u8>>>);
+
+impl Write for SharedBuf {
+    fn write(&mut self, buf: &[u8]) -> std::io::Result<usize> {
+        self.0.borrow_mut().extend_from_slice(buf);
+        Ok(buf.len())
+    }
+
+    fn flush(&mut self) -> std::io::Result<()> {
+        Ok(())
+    }
+}
+
+struct VerifScreen {
+    view_print: Option<(usize, usize)>,
+}
+
+impl Screen for VerifScreen {
+    fn cls(&self) -> Result<(), RuntimeError> {
+        Ok(())
+    }
+
+    fn background_color(&self, _color: i32) -> Result<(), RuntimeError> {
+        Ok(())
+    }
+
+    fn foreground_color(&self, _color: i32) -> Result<(), RuntimeError> {
+        Ok(())
+    }
+
+    fn move_to(&self, _row: u16, _col: u16) -> Result<(), RuntimeError> {
+        Ok(())
+    }
+
+    fn show_cursor(&self) -> Result<(), RuntimeError> {
+        Ok(())
+    }
+
+    fn hide_cursor(&self) -> Result<(), RuntimeError> {
+        Ok(())
+    }
+
+    fn get_view_print(&self) -> Option<(usize, usize)> {
+        self.view_print
+    }
+
+    fn set_view_print(&mut self, start_row: usize, end_row: usize) {
+        self.view_print = Some((start_row, end_row));
+    }
+
+    fn reset_view_print(&mut self) {
+        self.view_print = None;
+    }
+}
+
+#[derive(Default)]
+struct VerifStdlib {
+    env: std::collections::HashMap<String, String>,
+}
+
+impl Stdlib for VerifStdlib {
+    fn system(&self) {}
+
+    fn get_env_var(&self, name: &str) -> String {
+        self.env.get(name).cloned().unwrap_or_default()
+    }
+
+    fn set_env_var(&mut self, name: String, value: String) {
+        self.env.insert(name, value);
+    }
+}
+
+#[derive(Debug)]
+pub enum FrontEndError {
+    Parse(ParseErrorPos),
+    Lint(LintErrorPos),
+}
+
+#[derive(Debug)]
+pub struct RunResult {
+    pub stdout: Vec<u8>,
+    pub lpt1: Vec<u8>,
+    pub result: Result<(), RuntimeErrorPos>,
+    pub steps: u64,
+    pub budget_exhausted: bool,
+    pub last_error_code: Option<i32>,
+}
+
+/// Parses, lints and generates instructions for the given program text.
+pub fn compile(
+    text: &str,
+) -> Result<(InstructionGeneratorResult, rusty_parser::UserDefinedTypes), FrontEndError> {
+    let program = parse_main_str(text.to_owned()).map_err(FrontEndError::Parse)?;
+    let (linted_program, linter_context) = lint(program).map_err(FrontEndError::Lint)?;
+    let (linter_names, user_defined_types) = unwrap_linter_context(linter_context);
+    Ok((
+        generate_instructions(linted_program, linter_names),
+        user_defined_types,
+    ))
+}
+
+/// Runs the given program text with the given bytes on standard input,
+/// for at most `budget` instructions.
+pub fn run_in_memory(
+    text: &str,
+    stdin: &[u8],
+    budget: u64,
+    observer: Option<Observer>,
+    want_vars: bool,
+) -> Result<RunResult, FrontEndError> {
+    let (instruction_generator_result, user_defined_types) = compile(text)?;
+    Ok(run_instructions(
+        instruction_generator_result,
+        user_defined_types,
+        stdin,
+        budget,
+        observer,
+        want_vars,
+    ))
+}
+
+pub fn run_instructions(
+    instruction_generator_result: InstructionGeneratorResult,
+    user_defined_types: rusty_parser::UserDefinedTypes,
+    stdin: &[u8],
+    budget: u64,
+    observer: Option<Observer>,
+    want_vars: bool,
+) -> RunResult {
+    let out = SharedBuf::default();
+    let lpt1 = SharedBuf::default();
+    let mut interpreter = Interpreter::new(
+        VerifStdlib::default(),
+        ReadInputSource::new(Cursor::new(stdin.to_vec())),
+        WritePrinter::new(out.clone()),
+        WritePrinter::new(lpt1.clone()),
+        VerifScreen { view_print: None },
+        user_defined_types,
+    );
+    BUDGET.with(|b| b.set(budget));
+    STEPS.with(|s| s.set(0));
+    EXHAUSTED.with(|e| e.set(false));
+    WANT_VARS.with(|w| w.set(want_vars));
+    OBSERVER.with(|o| *o.borrow_mut() = observer);
+    let result = interpreter.interpret(instruction_generator_result);
+    OBSERVER.with(|o| *o.borrow_mut() = None);
+    WANT_VARS.with(|w| w.set(false));
+    BUDGET.with(|b| b.set(u64::MAX));
+    let last_error_code = interpreter.get_last_error_code();
+    RunResult {
+        stdout: out.0.borrow().clone(),
+        lpt1: lpt1.0.borrow().clone(),
+        result,
+        steps: STEPS.with(|s| s.get()),
+        budget_exhausted: EXHAUSTED.with(|e| e.get()),
+        last_error_code,
+    }
+}
